@@ -26,6 +26,8 @@ from mc.ref import ndn_strict as ns
 PROPERTY = 'C10'
 
 HEADERS = {                     # in increasing type order
+    'sequence': ts.tlv(0x51, b'\x00\x00\x00\x00\x00\x00\x00\x09'),
+    'hopcount': ts.tlv(0x54, b'\x03'),
     'token': ts.tlv(0x62, b'\xaa\xbb\xcc\xdd'),
     'unknown': ts.tlv(0x0324, b'\x01\x02'),
     'inface': ts.tlv(0x032C, ts.uint(300)),
@@ -213,8 +215,8 @@ def run_nack(fe, reason, target, hdrs=()):
         nack_hdr = ts.tlv(0x0320, b'')
     else:
         nack_hdr = ts.tlv(0x0320, ts.tlv(0x0321, ts.uint(reason)))
-    pre = b''.join(HEADERS[h] for h in HORDER if h in hdrs and h == 'token')
-    post = b''.join(HEADERS[h] for h in HORDER if h in hdrs and h not in ('token', 'unknown'))
+    pre = b''.join(HEADERS[h] for h in HORDER if h in hdrs and h in ('sequence', 'hopcount', 'token'))
+    post = b''.join(HEADERS[h] for h in HORDER if h in hdrs and h not in ('sequence', 'hopcount', 'token', 'unknown'))
     w.deliver(ts.tlv(0x64, pre + nack_hdr + post + ts.tlv(0x50, inner)))
     mid = dict(w.outcomes)
     calls_mid = list(w.calls)
@@ -245,7 +247,9 @@ def run_frag(fe, pkt_name, variant):
     pkt = get_corpus()[pkt_name]
     w = World(fe, 'both')
     extra = {'index': ts.tlv(0x52, b'\x00'), 'count': ts.tlv(0x53, b'\x01'),
-             'both': ts.tlv(0x52, b'\x00') + ts.tlv(0x53, b'\x02')}[variant]
+             'both': ts.tlv(0x52, b'\x00') + ts.tlv(0x53, b'\x02'),
+             'seq+both': HEADERS['sequence'] + ts.tlv(0x52, b'\x00') + ts.tlv(0x53, b'\x02'),
+             'seq+index': HEADERS['sequence'] + ts.tlv(0x52, b'\x01')}[variant]
     w.deliver(wrap(pkt, (), extra=extra))
     mid = dict(w.outcomes)
     o = w.finish()
@@ -317,8 +321,6 @@ def token_cases(tier):
     ks = list(TOKENS)
     for k in (1, 2, 3):
         for kinds in itertools.product(ks, repeat=k):
-            if k == 3 and tier == 'quick' and len(set(kinds)) < 2:
-                continue
             for order in itertools.permutations(range(k)):
                 yield kinds, list(order)
             yield kinds, list(range(k)) + list(range(k - 1, -1, -1))       # every Interest answered twice
@@ -330,8 +332,6 @@ def plan(tier, seed):
     for r in range(len(HORDER) + 1):
         for c in itertools.combinations(HORDER, r):
             subsets.append(list(c))
-    if tier == 'quick':
-        subsets = [s for s in subsets if len(s) <= 2 or len(s) >= len(HORDER) - 1]
     for fe in ('v2', 'legacy'):
         for state in STATES:
             for pk in get_corpus():
@@ -375,7 +375,7 @@ def unit(arg):
     elif k == 'nack':
         for reason in REASONS + [None]:
             for target in ('/n/a', '/n/b', '/h/q'):
-                for hdrs in ((), ('token',), ('cong', 'inface')):
+                for hdrs in ((), ('token',), ('cong', 'inface'), ('sequence',), ('sequence', 'hopcount', 'token')):
                     v, summary = run_nack(arg['fe'], reason, target, hdrs)
                     acc.evaluations += 1
                     acc.state_count += 1
@@ -391,7 +391,7 @@ def unit(arg):
         acc.sample({'nack': arg['fe'], 'reasons': [str(r) for r in REASONS], 'last': repr(summary)})
     elif k == 'frag':
         for pk in get_corpus():
-            for variant in ('index', 'count', 'both'):
+            for variant in ('index', 'count', 'both', 'seq+both', 'seq+index'):
                 v = run_frag(arg['fe'], pk, variant)
                 acc.evaluations += 1
                 acc.state_count += 1
@@ -400,7 +400,7 @@ def unit(arg):
                 acc.observe([arg['fe'], pk, variant, [x[0] for x in v]])
                 for sig, what in v:
                     acc.violation(sig, what, {'kind': 'frag', 'fe': arg['fe'], 'pkt': pk, 'variant': variant})
-        acc.sample({'frag': arg['fe'], 'variants': ['index', 'count', 'both']})
+        acc.sample({'frag': arg['fe'], 'variants': ['index', 'count', 'both', 'seq+both', 'seq+index']})
     else:
         for kinds, order in itertools.islice(token_cases(arg['tier']), arg['lo'], arg['hi']):
             v = run_tokens(kinds, order)
